@@ -46,16 +46,19 @@ func init() {
 					DestinationHost: "server", DestinationRealm: "go-diameter",
 					ActualTime: datatype.Time(time.Unix(1700000000, 0)),
 					UserName:   datatype.OctetString("CHF"),
-					SubscriptionId: &cd.SubscriptionId{
-						SubscriptionIdType: cd.SubscriptionIdType(u(t[2])),
-						SubscriptionIdData: datatype.UTF8String(sub),
-					},
 					ServiceRating: &cd.ServiceRating{
 						ServiceIdentifier: datatype.Unsigned32(u(t[4])),
 						RequestSubType:    cd.RequestSubType(u(t[5])),
 						ConsumedUnits:     datatype.Unsigned32(u(t[6])),
 						MonetaryQuota:     datatype.Unsigned32(u(t[7])),
 					},
+				}
+				if t[3] != "-" {
+					// "-": the optional Subscription-Id grouped AVP is left out of the request
+					sur.SubscriptionId = &cd.SubscriptionId{
+						SubscriptionIdType: cd.SubscriptionIdType(u(t[2])),
+						SubscriptionIdData: datatype.UTF8String(sub),
+					}
 				}
 				msg := diam.NewRequest(charging_code.ServiceUsageMessage, charging_code.Re_interface, dict.Default)
 				if err := msg.Marshal(sur); err != nil {
@@ -144,8 +147,12 @@ func genRf(o genOpts, w *bufio.Writer) {
 				}
 				return x
 			}
+			subTok := hexOf([]byte(sub))
+			if r.chance(4) {
+				subTok = "-"
+			}
 			fmt.Fprintf(w, "rf sur %s %d %s %d %d %d %d\n", hexOf([]byte(fmt.Sprintf("r%d", r.intn(1000)))),
-				subType, hexOf([]byte(sub)), rg, r.pick(1, 1, 1, 2, 2, 0, 3, 9), amt(), amt())
+				subType, subTok, rg, r.pick(1, 1, 1, 2, 2, 0, 3, 9), amt(), amt())
 			done++
 		}
 	}
